@@ -405,7 +405,7 @@ package astisub
 
 //@ func formatDuration(i time.Duration, millisecondSep string, numberOfMillisecondDigits int) (s string)
 //@   prop C16
-//@   requires 0 <= i && i < 360000000000000 && (numberOfMillisecondDigits == 2 || numberOfMillisecondDigits == 3)
+//@   requires [fn] 0 <= i && i < 360000000000000 && (numberOfMillisecondDigits == 2 || numberOfMillisecondDigits == 3)
 //@   ensures [rope] s == pad2(i / 3600000000000) ++ ":" ++ pad2(i % 3600000000000 / 60000000000) ++ ":" ++ pad2(i % 60000000000 / 1000000000) ++ millisecondSep ++ strpadleft(itoa(i % 1000000000 / fracUnit(numberOfMillisecondDigits)), 48, numberOfMillisecondDigits)
 //@   ensures [fraction-digits] len(strpadleft(itoa(i % 1000000000 / fracUnit(numberOfMillisecondDigits)), 48, numberOfMillisecondDigits)) == numberOfMillisecondDigits
 //@   lemma pure fields(t time.Duration, k int) : 0 <= t && (k == 2 || k == 3) ==> t % 3600000000000 / 60000000000 < 60 && t % 60000000000 / 1000000000 < 60 && t % 1000000000 / fracUnit(k) < (k == 3 ? 1000 : 100)
@@ -428,7 +428,7 @@ package astisub
 
 //@ func formatDurationSTLBytes(d time.Duration, framerate int) (o []byte)
 //@   prop C16
-//@   requires 0 <= d && d < 86400000000000 && (framerate == 25 || framerate == 30)
+//@   requires [fn] 0 <= d && d < 86400000000000 && (framerate == 25 || framerate == 30)
 //@   lemma pure stlFields(t time.Duration, fr int) : 0 <= t && t < 86400000000000 && (fr == 25 || fr == 30) ==> stlH(t) < 24 && stlM(t) == t % 3600000000000 / 60000000000 && stlM(t) < 60 && stlS(t) == t % 60000000000 / 1000000000 && stlS(t) < 60 && stlR3(t) == t % 1000000000 && 0 <= stlF(t, fr) && stlF(t, fr) < fr
 //@   ensures [fields] len(o) == 4 && o[0] == stlH(d) && o[1] == stlM(d) && o[2] == stlS(d) && o[3] == stlF(d, framerate)
 //@   ensures [fresh] fresh(o)
@@ -444,7 +444,7 @@ package astisub
 
 //@ func formatDurationSTL(d time.Duration, framerate int) (o string)
 //@   prop C16
-//@   requires 0 <= d && d < 86400000000000 && (framerate == 25 || framerate == 30)
+//@   requires [fn] 0 <= d && d < 86400000000000 && (framerate == 25 || framerate == 30)
 //@   ensures [rope] o == pad2(stlH(d)) ++ pad2(stlM(d)) ++ pad2(stlS(d)) ++ pad2(stlF(d, framerate))
 //@   assigns nothing
 //@ end
@@ -477,21 +477,21 @@ package astisub
 
 //@ func formatDurationSRT(i time.Duration) string
 //@   prop C16
-//@   requires 0 <= i && i < 360000000000000
+//@   requires [fn] 0 <= i && i < 360000000000000
 //@   ensures [srt] result == hmsRope(i) ++ "," ++ strpadleft(itoa(i % 1000000000 / 1000000), 48, 3)
 //@   assigns nothing
 //@ end
 
 //@ func formatDurationWebVTT(i time.Duration) string
 //@   prop C16
-//@   requires 0 <= i && i < 360000000000000
+//@   requires [fn] 0 <= i && i < 360000000000000
 //@   ensures [webvtt] result == hmsRope(i) ++ "." ++ strpadleft(itoa(i % 1000000000 / 1000000), 48, 3)
 //@   assigns nothing
 //@ end
 
 //@ func formatDurationSSA(i time.Duration) string
 //@   prop C16
-//@   requires 0 <= i && i < 360000000000000
+//@   requires [fn] 0 <= i && i < 360000000000000
 //@   ensures [ssa] result == hmsRope(i) ++ "." ++ strpadleft(itoa(i % 1000000000 / 10000000), 48, 2)
 //@   assigns nothing
 //@ end
@@ -528,4 +528,33 @@ package astisub
 //@   ensures [clean-eof] err == io.EOF ==> i.pos == old(i.pos) && old(i.pos) == i.slen
 //@   ensures [fault-reported] !old(i.failed) && i.failed ==> err != nil && err != io.EOF
 //@   assigns ghost(pos), ghost(failed)
+//@ end
+
+// ---------------------------------------------------------------------------
+// C08  thin safety contracts (panic-freedom sweep over the readers' and writers' call trees)
+// ---------------------------------------------------------------------------
+
+// A cue list "assembled from the public types": cue pointers are not nil; map values are not nil
+// and are keyed by their own ID. Everything else (metadata, styles, regions, inline attributes,
+// the maps themselves) may be absent.
+//@ pred writable(s *Subtitles) = nonNil(s) && (forall id string :: has(s.Regions, id) ==> s.Regions[id] != nil && s.Regions[id].ID == id) && (forall id string :: has(s.Styles, id) ==> s.Styles[id] != nil && s.Styles[id].ID == id)
+
+//@ func ReadFromSRT(i io.Reader) (o *Subtitles, err error)
+//@   prop C08 C18
+//@   requires i != nil
+//@ end
+
+//@ func parseTextSrt(i string, sa *StyleAttributes) (o Line)
+//@   prop C08
+//@   requires sa != nil
+//@ end
+
+//@ func htmlTokenAttribute(t *html.Token, key string) *string
+//@   prop C08
+//@   requires t != nil
+//@ end
+
+//@ func (s Subtitles) WriteToSRT(o io.Writer) (err error)
+//@   prop C08 C18 C19
+//@   requires writable(s) && o != nil
 //@ end
